@@ -625,10 +625,11 @@ def oracle(case):
           continue
         if not np.array_equal(y0, y0b, equal_nan=True):
           j = int(np.nonzero(~((y0 == y0b) | (np.isnan(y0) & np.isnan(y0b))).reshape(-1))[0][0])
-          fails.append(("infer_deterministic", dict(basesig, clause="infer_deterministic"),
+          fails.append(("infer_deterministic", dict(basesig, clause="infer_deterministic",
+                                                    after_training=bool(1 in phases[:step])),
                         "x=%r -> %r then %r with learning phase 0" %
                         (xin.reshape(-1)[j], y0.reshape(-1)[j], y0b.reshape(-1)[j]),
-                        mini(j, phases=[0])))
+                        mini(j, phases=phases[:step + 1] if 1 in phases[:step] else [0])))
         if not np.array_equal(y0, yt, equal_nan=True):
           j = int(np.nonzero(~((y0 == yt) | (np.isnan(y0) & np.isnan(yt))).reshape(-1))[0][0])
           fails.append(("infer_equals_nearest", dict(basesig, clause="infer_equals_nearest",
